@@ -9,7 +9,7 @@
    F is any field of characteristic 0 (the reals of the implementation); order-dependent statements take an order [le] with the ordered-field
    laws as a premise ([OrderedField], satisfiable: C16_ex_ordered_Qc). *)
 From Coq Require Import ZArith QArith Qcanon List Bool Lia.
-From EXV Require Import Base.Scalar Base.FieldLemmas Base.Cplx Layout.Freq Gen.Guards DFT.DFT1 Metrics.Metrics Metrics.MetricsProofs.
+From EXV Require Import Base.Scalar Base.FieldLemmas Base.Cplx Layout.Freq Gen.Guards DFT.DFT1 Metrics.Metrics Metrics.MetricsProofs IC.Normalize DFT.DFTD DFT.ParsevalD.
 Import ListNotations.
 Local Open Scope fld_scope.
 
@@ -205,6 +205,14 @@ Theorem C16_parseval_bilinear : forall (F : FieldT) (n : nat) (w w' : F), (0 < n
 Proof. exact parseval_bilinear. Qed.
 Print Assumptions C16_parseval_bilinear.
 
+(* ... and in every dimension D, for the D-fold iterate of the 1-D transform (the rfftn contract): sum over the full n^D spectrum *)
+Theorem C16_parseval_bilinear_any_dimension : forall (F : FieldT) (n : nat) (w w' : F), (0 < n)%nat -> fpow w n = 1 ->
+  (forall m, (0 < m < n)%nat -> fpow w m <> 1) -> w * w' = 1 ->
+  forall (D : nat) (u v : list nat -> F),
+  sumD F D n (fun k => dftD n D w u k * dftD n D w' v k) = npts F D n * sumD F D n (fun j => u j * v j).
+Proof. intros F n w w' Hn H1 H2 H3 D u v. apply (parseval_bilinear_D F n w w'); assumption. Qed.
+Print Assumptions C16_parseval_bilinear_any_dimension.
+
 (* real sequences: over a formally real field F, with a primitive n-th root w of modulus 1 in F[i], the half spectrum (k = 0..n/2) weighted with
    the multiplicities 1 (k = 0; k = n/2 for even n) and 2 (all other k, INCLUDING k = (n-1)/2 for odd n) carries n times the energy *)
 Theorem C16_parseval_half_spectrum : forall (F : FieldT) (FR : FormallyReal F) (n : nat) (w : cx F), (0 < n)%nat ->
@@ -217,9 +225,9 @@ Print Assumptions C16_parseval_half_spectrum.
 (* FULL STATEMENT (not proved in this generality):
      forall D N (u : state on the N^D grid),  fourier_agg root D N L tau None None None (rfftn u) = spatial_agg root D N L u.
    Proved below for D = 1, every n >= 1 (odd and even), every outer exponent, for the model's own weights (scaling_recon), index set
-   (half_indices) and volume factor.  Missing for D >= 2: the D-dimensional transform as the iterate of the 1-D transform along every axis
-   (a DFT/DFTD.v development).  The argument is the same: applying C16_parseval_bilinear along each leading axis gives
-   sum over the full spectrum |U|^2 = N^D sum |u|^2; the spectrum of a real field is Hermitian, U(-k) = conj U(k), so the stored half
+   (half_indices) and volume factor.  For D >= 2 the full-spectrum identity IS proved (C16_parseval_bilinear_any_dimension, DFT/ParsevalD.v: applying C16_parseval_bilinear
+   along each axis of the iterated transform gives sum over the full spectrum U(k) V'(k) = N^D sum u v); what is missing is only the folding
+   of the full spectrum onto the stored half for D >= 2: the spectrum of a real field is Hermitian, U(-k) = conj U(k), so the stored half
    (last-axis wavenumber 0..N/2) together with its mirror image covers the full spectrum, the stored modes whose last-axis wavenumber is
    self-conjugate (0, and N/2 for even N) being their own mirror column - weight 1 - and all others - weight 2; this is exactly
    N^D / scaling_recon (reconstruction mode: denominator 2 only on the last axis, only off the mean/Nyquist modes).  The witness oracle checks
